@@ -64,20 +64,23 @@ fn new_psbt(c: &Ctx, env: &Value) -> Psbt {
     for i in 0..n {
         let utxo = TxOut { value: Amount::from_sat(100_000), script_pubkey: c.descs[i].script_pubkey() };
         // legacy inputs carry the whole previous transaction
+        // the spent output is NOT at the position of the input: a decoy output (paying to the
+        // descriptor of another input, if any) sits in front of it, so vout = 1 for every legacy input
+        let decoy = TxOut { value: Amount::from_sat(70_000), script_pubkey: c.descs[(i + 1) % n].script_pubkey() };
         let prev = Transaction {
             version: transaction::Version(2),
             lock_time: absolute::LockTime::ZERO,
             input: vec![],
-            output: vec![utxo.clone()],
+            output: vec![decoy, utxo.clone()],
         };
         match &c.descs[i] {
             Descriptor::Bare(_) | Descriptor::Pkh(_) => {
                 psbt.inputs[i].non_witness_utxo = Some(prev.clone());
-                psbt.unsigned_tx.input[i].previous_output = OutPoint { txid: prev.compute_txid(), vout: 0 };
+                psbt.unsigned_tx.input[i].previous_output = OutPoint { txid: prev.compute_txid(), vout: 1 };
             }
             Descriptor::Sh(sh) if matches!(sh.as_inner(), miniscript::descriptor::ShInner::Ms(_)) => {
                 psbt.inputs[i].non_witness_utxo = Some(prev.clone());
-                psbt.unsigned_tx.input[i].previous_output = OutPoint { txid: prev.compute_txid(), vout: 0 };
+                psbt.unsigned_tx.input[i].previous_output = OutPoint { txid: prev.compute_txid(), vout: 1 };
             }
             _ => psbt.inputs[i].witness_utxo = Some(utxo),
         }
